@@ -1234,6 +1234,9 @@ func (tc *typechecker) checkFunc(node *ast.Func) {
 func (tc *typechecker) checkReturn(node *ast.Return) ast.Node {
 
 	fn := tc.scopes.CurrentFunction()
+	if fn == nil {
+		panic(tc.errorf(node, "return statement outside function body"))
+	}
 	if fn.Type.Macro {
 		return nil
 	}
